@@ -253,12 +253,47 @@ def chunked(seq, n):
         yield seq[i:i + n]
 
 
-def pmap(fn, items, procs=None, chunk=64):
-    """Deterministic parallel map (fork), falling back to serial when procs == 1."""
-    procs = procs or int(os.environ.get('VERIF_PROCS', '0') or 0) or min(12, os.cpu_count() or 1)
-    if procs <= 1 or len(items) < 2 * chunk:
-        return [fn(x) for x in items]
+def _fork_map(fn, items, procs, chunk):
     import multiprocessing as mp
-    ctx = mp.get_context('fork')
-    with ctx.Pool(procs) as pool:
+    if procs <= 1:
+        return [fn(x) for x in items]
+    with mp.get_context('fork').Pool(procs) as pool:
         return pool.map(fn, items, chunksize=chunk)
+
+
+def _zygote(conn, fn, items, procs, chunk):
+    try:
+        conn.send(('ok', _fork_map(fn, items, procs, chunk)))
+    except BaseException:
+        conn.send(('err', traceback.format_exc()))
+    finally:
+        conn.close()
+
+
+def pmap(fn, items, procs=None, chunk=64, fixed_hash=False):
+    """Deterministic parallel map (results in input order).
+    fixed_hash: run the workers below one *spawned* interpreter with PYTHONHASHSEED=0.  Some library results
+    (SetType.from_python_object iterates a Python set before sorting with an order that is not total) depend on
+    str/bytes hash randomisation, which would make the list of failing cases differ from run to run."""
+    procs = procs or int(os.environ.get('VERIF_PROCS', '0') or 0) or min(12, os.cpu_count() or 1)
+    if not fixed_hash or os.environ.get('PYTHONHASHSEED') == '0':
+        return _fork_map(fn, items, procs, chunk)
+    import multiprocessing as mp
+    old = os.environ.get('PYTHONHASHSEED')
+    os.environ['PYTHONHASHSEED'] = '0'
+    try:
+        ctx = mp.get_context('spawn')
+        parent, child = ctx.Pipe(duplex=False)
+        p = ctx.Process(target=_zygote, args=(child, fn, items, procs, chunk), daemon=False)
+        p.start()
+        child.close()
+        status, res = parent.recv()
+        p.join()
+    finally:
+        if old is None:
+            os.environ.pop('PYTHONHASHSEED', None)
+        else:
+            os.environ['PYTHONHASHSEED'] = old
+    if status != 'ok':
+        raise RuntimeError('worker failed:\n' + res)
+    return res
